@@ -10,6 +10,8 @@ for ln in (ROOT / "properties.jsonl").read_text().splitlines():
 
 # claimed properties -> technique (the level text and note come from the props module itself)
 TECHNIQUE = {
+    "C11": "Lean 4 proof (filtered contract per source for every index list; Partitions/Head/Tail lowering and push-down; sorted head via per-partition n-firsts) + exact graph/rule correspondence + selection/head/tail search on every source",
+    "C06": "Lean 4 proof (DivInv preserved by each modelled _divisions/task pair; partition-count equalities; length push-down rules; regenerated length-flag table decided by the kernel) + correspondence of _divisions/_get_lengths/Len rules + node-by-node divisions/length search",
     "C19": "Lean 4 proof (fusion loop and lower_completely terminate \u2014 lowering relation regenerated from the source and proven acyclic by a checked rank; simplify exits at a fixpoint) + table correspondence + step-count/determinism/idempotence search",
     "C16": "Lean 4 proof (reconstruct(reduce e) = e for all trees; observables independent of process-global caches per regenerated table) + __reduce__ correspondence + fresh-process unpickling search",
     "C15": "Lean 4 proof (LRU refines a pure map for all histories; get-or-compute transparency; weak singleton table under arbitrary GC; regenerated cache-site table decided by the kernel) + exhaustive LRU op-sequence correspondence + session-history search against fresh interpreters",
